@@ -588,15 +588,12 @@ impl<'a> TypeConverter<'a> {
         created: wasm::ComponentAnyTypeId,
     ) {
         if let Some((other, orig)) = self.find_owner(referenced) {
-            match *other {
-                Owner::Interface(interface) if owner != *other => {
+            let (other, orig) = (*other, orig.clone());
+            match other {
+                Owner::Interface(interface) if owner != other => {
                     let used = UsedType {
                         interface,
-                        name: if name != orig {
-                            Some(orig.to_string())
-                        } else {
-                            None
-                        },
+                        name: if name != orig { Some(orig.clone()) } else { None },
                     };
 
                     // Owner is a different interface, so add a using reference
@@ -609,6 +606,11 @@ impl<'a> TypeConverter<'a> {
                 }
                 _ => {}
             }
+
+            // The created type is the same type as the one its owner exported: remember
+            // that, so a later use of *this* item (a `use` chain through a re-exporting
+            // interface) still resolves to the original owner.
+            self.owners.entry(created).or_insert((other, orig));
             return;
         }
 
